@@ -15,6 +15,8 @@ set — both decidable, both invariants of every operation: `wf_preserved`), `Op
 All statements quantify over every document, path text, value and history.
 -/
 namespace Nima.C08
+-- name tokens are compared by spelling in this file (see `NameCmp` in Model/Edit.lean)
+attribute [local instance] NameCmp.spelled
 
 open Nima Nima.Node Nima.EditM Nima.EditFail
 
